@@ -156,6 +156,9 @@ pub struct Sys {
     /// C02 (ring oracle without the forms oracle): run every operation once more in its destination form into ONE dirty
     /// destination; a program that reuses buffers is a program, its result must decrypt to the same value
     pub ring_dirty: std::sync::atomic::AtomicBool,
+    /// how many of the dirty destinations the forms oracle tries per transition (all by default; 2, rotating with the operands,
+    /// in the restricted depth-3 closures of the thorough tier, where 10^7 transitions cover every (operation, shape, destination) anyway)
+    pub dirty_per_transition: std::sync::atomic::AtomicUsize,
     pub sk: Vec<i64>,
     pub bgv: bool,
     pub special_bits: usize,
@@ -229,7 +232,7 @@ impl Sys {
         env_real(seed, h64(&("e2-dirty", spec)));
         let dirty = crate::he::dirty_destinations(&kit);
         let special_bits = if kit.ctx.using_keyswitching() { 64 - key_mods.last().unwrap().leading_zeros() as usize } else { 0 };
-        Ok(Sys { spec: spec.clone(), bgv: spec.scheme == Scheme::BGV, kit, seed, levels, moduli, qbits, relin1, relin_full, msgs, plains, dirty, ring_dirty: Default::default(), sk, special_bits, budget_checks: Default::default(), zero_budget: Default::default(), min_positive_budget: std::sync::atomic::AtomicU64::new(u64::MAX) })
+        Ok(Sys { spec: spec.clone(), bgv: spec.scheme == Scheme::BGV, kit, seed, levels, moduli, qbits, relin1, relin_full, msgs, plains, dirty, ring_dirty: Default::default(), dirty_per_transition: std::sync::atomic::AtomicUsize::new(usize::MAX), sk, special_bits, budget_checks: Default::default(), zero_budget: Default::default(), min_positive_budget: std::sync::atomic::AtomicU64::new(u64::MAX) })
     }
 
     pub fn n(&self) -> usize {
@@ -555,7 +558,11 @@ impl Sys {
                 });
             } else if a.is_ok() && (a == b && a == c) {
                 // the destination form once more, into destinations that already hold other valid ciphertexts
-                for (k, d0) in self.dirty.iter().enumerate() {
+                let per = self.dirty_per_transition.load(std::sync::atomic::Ordering::Relaxed).min(self.dirty.len());
+                let start = if per < self.dirty.len() { (h64(&(what, before.as_slice())) % self.dirty.len() as u64) as usize } else { 0 };
+                for kk in 0..per {
+                    let k = (start + kk) % self.dirty.len();
+                    let d0 = &self.dirty[k];
                     let rd = guard(|| f_dest(d0.clone()));
                     if fp(&rd) != b {
                         dis.push(Dis {
@@ -1150,6 +1157,9 @@ impl AnySection for E2Section {
             }
         };
         sys.ring_dirty.store(self.oracles.ring && !self.oracles.forms, std::sync::atomic::Ordering::Relaxed);
+        if self.depth >= 3 {
+            sys.dirty_per_transition.store(2, std::sync::atomic::Ordering::Relaxed);
+        }
         let mut states: Vec<St> = vec![];
         let mut conc: HashMap<u64, usize> = HashMap::new();
         let mut transitions = 0u64;
